@@ -116,11 +116,22 @@ def showDeltas (h : Hist) : String :=
           ++ ":u=" ++ idsOf (updatedRows m b (e0 + 1))
   if parts.isEmpty then "ok -" else "ok " ++ " ".intercalate parts
 
+/-- an upsert the model would commit that inserts two or more rows: the interpreter rejects it on both sides (the order
+    in which the real join emits several unmatched source rows, and with it which fresh row id each gets, is hash-dependent) -/
+def multiInsert (s : St) (op : Op) : Bool :=
+  match s, op with
+  | m :: _, .upsert rows =>
+    (match (LanceModel.C17.step s op).2 with
+     | .ok => true
+     | .err _ => false) && decide (1 < (upsertNew m.frags rows).length)
+  | _, _ => false
+
 def step (s : St) (line : String) : St × String :=
   match parseCmd line with
   | none => (s, "err parse")
   | some .deltas => if s.isEmpty then (s, "err no_table") else (s, showDeltas s)
   | some (.op op) =>
+    if multiInsert s op then (s, "err multi_insert") else
     match LanceModel.C17.step s op with
     | (s', .ok) =>
       match s' with
